@@ -43,6 +43,18 @@ def commit_jobs(tier, prop):
                       assumptions=['req_commit: extract_reqs by (assumed) contract - selection exactness of extract_reqs itself is not yet enforced (see F7)']))
     return js
 
+def post_jobs(tier, prop):
+    js = []
+    for nlp, newn, pos in ([(2, 2, 0), (2, 2, 1), (2, 1, 2), (1, 1, 0)] if tier == 'quick' else [(a, b, c) for a in (0, 1, 2, 3) for b in (1, 2) for c in range(a + 1)]):
+        js.append(Job('%s/ncmpio_igetput_varm/iput/pending%d_records%d_at%d' % (prop, nlp, newn, pos), prop,
+                      ['src/drivers/common/utils.c', 'src/drivers/common/convert_swap.m4', 'src/drivers/common/create_imaptype.c', 'src/drivers/common/error_mpi2nc.c', 'src/drivers/common/ncx.m4'],
+                      'C02_igetput.c', enforce='ncmpio_igetput_varm', replace=['ncmpio_pack_xbuf'], include_tus={'TU_i_getput_c': 'src/drivers/ncmpio/ncmpio_i_getput.m4'},
+                      extra_src=MODEL, defines=['-DNLP=%d' % nlp, '-DNEWN=%d' % newn, '-DNEWPOS=%d' % pos], canaries=['record_request'] + (['appended_last'] if pos == nlp else []) + (['inserted_first'] if pos == 0 and nlp else []),
+                      unwind=26, kind='bounded', timeout=600, mem_gb=12,
+                      bound='insertion position %d; ' % pos + '%d pending lead puts; new high-level iput on a 1-D int variable with %d record(s); allocation granule NC_REQUEST_CHUNK = 4 (verification-only; library value 1024)' % (nlp, newn)))
+    return js
+
+# post_jobs (ncmpio_igetput_varm): cbmc ends with ERROR/out-of-memory on every instance tried (even with the insertion position enumerated); parked, not registered
 def jobs(tier, ws):
     # req_commit (commit_jobs): every back end needs > 7 min per obligation even on a 2-request queue (probed);
     # not registered so that the check stays decisive - see DESIGN.md
